@@ -253,7 +253,12 @@ let rec raw = function
 let run_ns line =
   set_input line;
   let ms = plist pnxml in
-  String.concat "\t" ("NM" :: List.map (fun m -> let s = stored_math m in (if no_1x_decl s then "" else "!1x ") ^ raw s) ms)
+  (* "!1x": the instance of C14_stored_math_no_1x_declaration fails; "!tree": the declaration layer and the tree layer
+     (Load1xDefs.rewrite_math on the erased element) disagree although the element is in the tree layer's scope *)
+  String.concat "\t" ("NM" :: List.map (fun m ->
+      let s = stored_math m in
+      (if no_1x_decl s then "" else "!1x ")
+      ^ (if math_in_scope (erase m) && erase s <> rewrite_math (erase m) then "!tree " else "") ^ raw s) ms)
 
 let () =
   let ic = open_in Sys.argv.(1) in
